@@ -448,6 +448,18 @@ def inv_c19(model, real, tier, ops=None):
         evals += 1
         if up.code != 0 or sh.code != 0 or (up.json() or {}).get("checkpoint") != (sh.json() or {}).get("checkpoint"):
             v.append(("show-differs-from-last-update", "suffix probe: update %s printed %s, show printed %s" % (extra, up.out[:150], sh.out[:150])))
+    # the id may be given in any spelling git understands (abbreviated, HEAD, HEAD~1, a branch name): whatever
+    # update accepted and printed is what show returns
+    head = real.commit_ids[-1]
+    forms = [head[:7], head[:12], "HEAD", real.r.git("rev-parse", "--abbrev-ref", "HEAD").strip()] + (["HEAD~1"] if len(real.commit_ids) > 1 else [])
+    for idv in forms:
+        up = real.r.mr("checkpoint", "update", "--id", idv)
+        if up.code != 0:
+            continue   # an id spelling that update refuses is not covered by the statement
+        sh = real.r.mr("checkpoint", "show")
+        evals += 1
+        if sh.code != 0 or (up.json() or {}).get("checkpoint") != (sh.json() or {}).get("checkpoint"):
+            v.append(("show-differs-from-last-update", "suffix probe: update --id %s printed %s, show printed %s" % (idv, up.out[:150], sh.out[:150])))
     de = real.r.mr("checkpoint", "delete")
     sh = real.r.mr("checkpoint", "show")
     doc = real.r.mr("analyze").json()
@@ -497,7 +509,8 @@ def inv_c07(model, real, ops, tier):
     edits = [("W", p, FRESH) for p in PATHS if p in model.wt] + \
             [("W", p, c) for p in PATHS + NEWPATHS if p not in model.wt for c in ["1", "2", FRESH]] + \
             [("D", p) for p in PATHS if p in model.wt and p in model.commits[-1]] + \
-            [("W", p, FRESH) for p in IGNORED]
+            [("W", p, FRESH) for p in IGNORED] + \
+            [("W", p, "@empty") for p in PATHS + NEWPATHS]   # an empty file: created (`touch`, `: > f`) or truncated; no file of the alphabet is ever empty
     seqs = [[e] for e in edits]
     # file times must not matter: the same content change arriving with a modification time far in
     # the past (mv of an older file, cp -p, tar x)
@@ -520,7 +533,7 @@ def inv_c07(model, real, ops, tier):
         for e in seq:
             fp = r.path(e[1])
             if e[0] == "W":
-                r.write(e[1], sc.content(e[2]))
+                r.write(e[1], "" if e[2] == "@empty" else sc.content(e[2]))
                 if len(e) > 3:
                     os.utime(fp, (1_000_000_000, 1_000_000_000))
             elif os.path.isfile(fp):
@@ -931,8 +944,17 @@ def ignored_paths_task(variant):
     s = sc.Scratch("ign")
     try:
         ts = [{"path": "a", "ignores": ["a/vendor", "a/NOTES.md"]}, {"path": "b", "uses": ["a/vendor/shared"]}, {"path": "c"}]
+        # the change set does not depend on the configured targets at all: a configuration with an empty
+        # target list, or without the key, reports the same paths
+        variant, _, tv = variant.partition("/")
+        if tv:
+            ts = []
         files = {"a/vendor/dep.txt": "dep 1\n", "a/vendor/old.txt": "old\n", "a/NOTES.md": "notes 1\n", "a/vendor/shared/s.txt": "s 1\n"}
         r = sc.Repo(s, "r", ts, commands={t["path"]: {"build": "x"} for t in ts}, files=files)
+        if tv == "targets-omitted":
+            r.cfg.pop("targets", None)
+            r.write_cfg()
+            r.commit("configuration without a targets key")
         v = []
         evals = 0
         first = r.head()
@@ -950,6 +972,8 @@ def ignored_paths_task(variant):
             modes = [(["--changes", "-b", first, "-e", r.head()], want_range), (["--changes"], want_range), (["--all"], want_range)]
         else:
             modes = [(["--changes"], want), (["--all"], want), (["--changes", "--change-targets"], want), (["--changes", "--target-groups"], want)]
+        if tv:
+            variant = variant + "/" + tv
         for args, w in modes:
             doc = r.mr("analyze", *args).json()
             evals += 1
@@ -1245,7 +1269,7 @@ def bfs(prop, tier, depth, wall_cap=None):
             agg["violations"].extend(r["violations"])
         agg["directory_becomes_file_cases"] = 2
     if prop == "C02":
-        for r in common.pmap(ignored_paths_task, ["worktree", "committed"]):
+        for r in common.pmap(ignored_paths_task, ["worktree", "committed", "worktree/no-targets", "committed/no-targets", "worktree/targets-omitted", "committed/targets-omitted"]):
             if "engine_error" in r:
                 raise common.EngineError(r["engine_error"])
             agg["evaluations"] += r["evals"]
